@@ -1,8 +1,11 @@
 package rules
 
 import (
+	"go/constant"
 	"go/token"
 	"go/types"
+	"os"
+	"strings"
 
 	"golang.org/x/tools/go/ssa"
 
@@ -572,6 +575,11 @@ func checkStartBlockTable(c *core.Ctx, mn int64) {
 		}
 		c.Floor("CheckRouterStartBlock call sites", nSites, 1)
 	}
+	// decision by evaluation: whatever the table is written as (switch, if-chain, flag, helper returning the
+	// start block), on main net every listed router is refused one block before its start block and at height 0
+	if startBlockByEvaluation(c, fn, mn) {
+		return
+	}
 	// tests `router == <global>`
 	type rt struct {
 		cd   ir.Cond
@@ -722,4 +730,68 @@ func checkStartBlockTable(c *core.Ctx, mn int64) {
 		}
 		c.Decide(!leak, "C21.start-block-table", fn, "block < startBlock ⇒ error", c.P.Rel(fn.Pos()), "")
 	}
+}
+
+// startBlockByEvaluation decides the start-block table by abstract evaluation of CheckRouterStartBlock
+// (eng.AEval: constant propagation over its SSA and the helpers it calls, nothing is executed) with the
+// network id fixed to main net.  Returns false when the evaluation cannot follow the code (a branch on a
+// value it does not model): the structural rule below then decides.
+func startBlockByEvaluation(c *core.Ctx, fn *ssa.Function, mn int64) bool {
+	if len(fn.Params) != 2 {
+		return false
+	}
+	opts := eng.AEvalOpts{Load: func(path string) (eng.AVal, bool) {
+		if strings.HasSuffix(path, ".NetworkId") {
+			return eng.AIntV(mn), true
+		}
+		if !strings.Contains(path, ".") { // a package-level variable initialised with an integer and never re-assigned
+			if v, ok := eng.GlobalInitInt(fn.Pkg, path); ok {
+				return eng.AIntV(v), true
+			}
+		}
+		return eng.AVal{}, false
+	}}
+	type row struct {
+		name   string
+		want   int64
+		detail string
+		ok     bool
+	}
+	var rows []row
+	for _, name := range ir.SortedKeys(c21StartBlocks) {
+		want := c21StartBlocks[name]
+		var rv int64
+		if k, err := c.P.Const(pkUtils, name); err == nil {
+			x, exact := constant.Int64Val(constant.ToInt(k))
+			if !exact {
+				return false
+			}
+			rv = x
+		} else if x, ok := eng.GlobalInitInt(fn.Pkg, name); ok {
+			rv = x
+		} else {
+			return false
+		}
+		good := true
+		detail := ""
+		for _, h := range []int64{0, want - 1} {
+			res, ok := eng.AEval(fn, []eng.AVal{eng.AIntV(rv), eng.AIntV(h)}, opts)
+			if !ok || len(res) != 1 || (res[0].K != eng.ANil && res[0].K != eng.ANonNil) {
+				if os.Getenv("PV_DEBUG") != "" {
+					println("aeval failed", ok, len(res), rv, h)
+				}
+				return false
+			}
+			if res[0].K == eng.ANil {
+				good = false
+				detail = sprintf("evaluated at (router %d, height %d) on main net: accepted", rv, h)
+			}
+		}
+		rows = append(rows, row{name, want, detail, good})
+	}
+	for _, r := range rows {
+		c.Decide(r.ok, "C21.start-block-table", fn, "router "+r.name+" gated until block "+sprintf("%d", r.want)+" on main net", c.P.Rel(fn.Pos()), r.detail)
+	}
+	c.Note("C21.start-block-table decided by abstract evaluation of CheckRouterStartBlock at heights 0 and start-1 for each listed router (main net)")
+	return true
 }
